@@ -163,28 +163,45 @@ theorem userspace_typed_eq_C01_matchM (es : List (Entry MCond Out)) (p : Pkt) (w
   simp only [List.nil_append] at this
   rw [this]
 
-/-- **Chain.** For every rule list as written, the kernel program run over the installed byte images
-returns the packed decision of the first matching rule (C01's specification), DNS-adjusted. -/
-theorem kernel_eq_first_match_spec (rules : List SRule) (fb : Out) (p : Pkt) (wan : Bool) (ubm : List Nat)
-    (m0 : KMaps) (old : List Nat) (dom : List (Nat × List Nat)) (start : Nat)
-    (hp : p.WF) (hr : ∀ r ∈ rules, r.WF)
-    (outboundsOK : ∀ e ∈ compileProgram rules fb, OutOK e)
+/-- The same for the array the REAL builder emits: `ip()`/`sip()` sets share LPM tries through
+`lpmDedup` (any hash function, collisions included), `mac()` sets never do. -/
+theorem userspace_shared_eq_C01_matchM (hash : List Prefix → Nat) (es : List (Entry MCond Out)) (p : Pkt) (wan : Bool)
+    (ubm : List Nat) (outboundsOK : ∀ e ∈ es, OutOK e) (domainPositions : DomOK ubm p 0 es) :
+    matchU (assignShare hash Builder.empty es).1 (assignShare hash Builder.empty es).2.tries ubm (toK p wan) = matchM es p := by
+  unfold matchU matchM
+  rw [(assignShare_scan hash p wan ubm es Builder.empty 0 Builder.inv_empty outboundsOK domainPositions).2.2
+    _ [] (by simp) false false false]
+
+/-- **Chain.** For every rule list as written (C01's well-formedness plus the ranges the Go types
+enforce: 16-bit ports, 8-bit DSCP, user outbounds below the sentinels, 32-bit marks), the kernel
+program run over the byte images installed for the builder's typed array (with trie sharing)
+returns the packed decision of the first matching rule (C01's specification), DNS-adjusted.
+Remaining hypotheses: the program fits the maps (= the builder accepts it), the packet ranges, H2,
+and the position bookkeeping of the domain bitmap (`DomOK`: bit `i` is the truth of the key group
+whose match set sits at index `i` — `addDomain`'s `RuleIndex: len(b.rules)`, C01 `Position` / C11). -/
+theorem kernel_eq_first_match_spec (hash : List Prefix → Nat) (rules : List SRule) (fb : Out) (p : Pkt) (wan : Bool)
+    (ubm : List Nat) (m0 : KMaps) (old : List Nat) (dom : List (Nat × List Nat)) (start : Nat)
+    (hp : p.WF) (hr : ∀ r ∈ rules, r.WF) (ranges : ∀ r ∈ rules, ruleRanges r)
+    (fallbackOK : fb.outbound < OB_MustRules ∧ fb.mark < 2 ^ 32)
     (domainPositions : DomOK ubm p 0 (compileProgram rules fb))
-    (rulesFit : (assignFrom 0 (compileProgram rules fb)).1.length ≤ MaxMatchSetLen)
-    (triesFit : (assignFrom 0 (compileProgram rules fb)).2.length ≤ MaxMatchSetLen)
-    (triesWF : ∀ t ∈ (assignFrom 0 (compileProgram rules fb)).2, ∀ q ∈ t, q.WF)
+    (rulesFit : (assignShare hash Builder.empty (compileProgram rules fb)).1.length ≤ MaxMatchSetLen)
+    (triesFit : (assignShare hash Builder.empty (compileProgram rules fb)).2.tries.length ≤ MaxMatchSetLen)
     (pktOK : PktOK (toK p wan))
-    (domain : ∀ w, ({ inheritSlots (installGen .little start (assignFrom 0 (compileProgram rules fb)).1
-        (assignFrom 0 (compileProgram rules fb)).2 m0) old (genSlots start (assignFrom 0 (compileProgram rules fb)).2.length)
-        with domain := dom } : KMaps).domainWord (toK p wan).daddr w = ubm.getD w 0)
-    (entriesOK : ∀ k ∈ (assignFrom 0 (compileProgram rules fb)).1,
-        EntryOK (assignFrom 0 (compileProgram rules fb)).2.length k) :
-    routeK .little { inheritSlots (installGen .little start (assignFrom 0 (compileProgram rules fb)).1
-        (assignFrom 0 (compileProgram rules fb)).2 m0) old (genSlots start (assignFrom 0 (compileProgram rules fb)).2.length)
+    (domain : ∀ w, ({ inheritSlots (installGen .little start (assignShare hash Builder.empty (compileProgram rules fb)).1
+        (assignShare hash Builder.empty (compileProgram rules fb)).2.tries m0) old
+        (genSlots start (assignShare hash Builder.empty (compileProgram rules fb)).2.tries.length)
+        with domain := dom } : KMaps).domainWord (toK p wan).daddr w = ubm.getD w 0) :
+    routeK .little { inheritSlots (installGen .little start (assignShare hash Builder.empty (compileProgram rules fb)).1
+        (assignShare hash Builder.empty (compileProgram rules fb)).2.tries m0) old
+        (genSlots start (assignShare hash Builder.empty (compileProgram rules fb)).2.tries.length)
         with domain := dom } (toK p wan) =
       expectedK (toK p wan) (some (firstMatchS p rules fb false)) := by
-  rw [routeK_after_any_reload_history m0 old dom start _ _ (toK p wan) ubm rulesFit triesFit triesWF pktOK domain entriesOK,
-    userspace_typed_eq_C01_matchM _ p wan ubm outboundsOK domainPositions,
+  have ok := compileProgram_ok rules fb hr ranges fallbackOK
+  have outs : ∀ e ∈ compileProgram rules fb, OutOK e := fun e he => outOK_of_tailOK e (ok e he).2
+  obtain ⟨tw, _, eok⟩ := assignShare_ok hash (compileProgram rules fb) Builder.empty Builder.inv_empty
+    (by intro t ht; simp [Builder.empty] at ht) ok
+  rw [routeK_after_any_reload_history m0 old dom start _ _ (toK p wan) ubm rulesFit triesFit tw pktOK domain eok,
+    userspace_shared_eq_C01_matchM hash _ p wan ubm outs domainPositions,
     C01.Props.match_is_first_match rules fb p hp hr]
 
 -- the chain's hypotheses hold for C01's own example program
@@ -196,6 +213,12 @@ example : (∀ e ∈ compileProgram C01.Props.exRules ⟨0, 0, false⟩, OutOK e
     PktOK (toK C01.Props.exPkt true) := by
   refine ⟨by decide, by decide, by decide, by decide, by decide, ?_⟩
   exact ⟨by decide, by decide, by decide, by decide, by decide, by decide, by decide⟩
+
+-- sharing really happens: two equal `dip` sets in different rules get ONE trie, the `mac` set its own
+example : (assignShare (fun _ => 7) Builder.empty
+    [⟨.ipSet [⟨true, mapped4 0x0a000000, 8⟩], false, .final ⟨2, 0, false⟩⟩, ⟨.srcIpSet [⟨true, mapped4 0x0a000000, 8⟩], false, .final ⟨3, 0, false⟩⟩,
+     ⟨.macSet [macPrefix 1], false, .final ⟨4, 0, false⟩⟩, ⟨.fallback, false, .final ⟨0, 0, false⟩⟩]).1.map (·.cond) =
+    [.ipSet 0, .srcIpSet 0, .macSet 1, .fallback] := by decide
 
 /-! ## 3. the byte encodings the control plane writes are the ones the kernel reads -/
 
@@ -330,6 +353,58 @@ theorem ring_overlap_when_too_many (c0 n1 n2 s1 c1 s2 c2 : Nat)
   omega
 
 example : reserveRing 1000 30 = some (1000, 6) ∧ reserveRing 6 994 = some (6, 1000) := by decide
+
+/-! ## 5b. kernel error paths, program size, the scope of H2 -/
+
+/-- Whatever the maps contain (any byte order), `route()` returns a packed decision or `-EPERM`:
+`-EFAULT` / `-EINVAL` / `-ENOEXEC` set inside the loop never escape. -/
+theorem routeK_nonneg_or_eperm (e : Endian) (m : KMaps) (pk : PktK) : 0 ≤ routeK e m pk ∨ routeK e m pk = -EPERM := by
+  unfold routeK
+  simp only
+  generalize (bpfLoop (loopCb e m pk) (if m.activeLen ≤ MaxMatchSetLen then m.activeLen else MaxMatchSetLen) 0 _).result = r
+  by_cases h : r ≥ 0
+  · left; simp [h]
+  · right; simp [h]
+
+/-- `active_rules_len` above `MAX_MATCH_SET_LEN` is clamped: the kernel never scans past index 1023. -/
+theorem active_len_clamped (e : Endian) (m : KMaps) (pk : PktK) (h : m.activeLen > MaxMatchSetLen) :
+    routeK e m pk = routeK e { m with activeLen := MaxMatchSetLen } pk := by
+  unfold routeK
+  have h1 : ¬ m.activeLen ≤ MaxMatchSetLen := by omega
+  simp only [h1, if_false, Nat.le_refl, if_true]
+  rfl
+
+/-- An empty program (active length 0) routes nothing: `-EPERM`. -/
+theorem nothing_installed_is_error (e : Endian) (m : KMaps) (pk : PktK) (h : m.activeLen = 0) : routeK e m pk = -EPERM := by
+  unfold routeK
+  simp [h, bpfLoop, ENOEXEC]
+
+/-- The builder (fix 51cbe59) accepts a lowered array, fallback entry included, iff it fits
+`routing_map`; a longer one is a build error on both sides before any map is written. -/
+def builderAccepts (kp : List KEntry) : Bool := decide (kp.length ≤ MaxMatchSetLen)
+
+/-- … which is exactly the `rulesFit` hypothesis of the theorems, and nothing longer can ever be
+`Installed` (the kernel could only scan a prefix of it). -/
+theorem builder_accepts_iff_installable (start : Nat) (kp : List KEntry) (tries : List (List Prefix)) (ht : tries.length ≤ MaxMatchSetLen) :
+    builderAccepts kp = true ↔ ∃ m, Installed m start kp tries := by
+  unfold builderAccepts
+  rw [decide_eq_true_eq]
+  constructor
+  · intro h; exact ⟨_, installGen_installed start kp tries KMaps.empty h ht⟩
+  · rintro ⟨m, hm⟩; exact hm.bound
+
+example : builderAccepts exKp = true := by decide
+
+/-- **H2 is needed** (its scope made explicit): a bitmap left in `domain_routing_map` for the
+destination (here bit 0 of word 0) while userspace has no domain for the packet makes the kernel
+take the `domain(..) -> block` rule and userspace fall through to `direct`. The control plane clears
+the map at every reload and the harness checks on the real kernel map that it does. -/
+theorem domain_hypothesis_needed :
+    routeK .little { installGen .little 0 [⟨.domainSet, false, 1, false, 0⟩, ⟨.fallback, false, 0, false, 0⟩] [] KMaps.empty
+        with domain := [(2, 1 :: List.replicate 31 0)] }
+      ⟨1, 1, List.replicate 16 0, 0, 0, 40000, 443, 1, 2, 0⟩ = pack 1 0 false ∧
+    matchU [⟨.domainSet, false, 1, false, 0⟩, ⟨.fallback, false, 0, false, 0⟩] [] []
+      ⟨1, 1, List.replicate 16 0, 0, 0, 40000, 443, 1, 2, 0⟩ = some ⟨0, 0, false⟩ := by decide
 
 /-! ## 6. the process name (H3) -/
 
